@@ -44,30 +44,30 @@ def mm : Op R → Nat → MatF R → MatV R
   | eye _ _, _, X => MatV.of (X)
   | prod Ms, b, X => Ms.foldr (fun M acc => M.mm b acc.f) (MatV.of X)
   | sum Ms, b, X =>
-      let r := sumMatmat (Ms.map (fun M => fun Y => (M.mm b Y).f)) X
+      let r := sumMatmat (Ms.map (fun M => fun Y => M.mm b Y)) X
       forceV ((Ms.map (·.rows)).head?.getD 0) b r.f
   | kron Ms, b, X =>
       let r := kronMatmat
-        (Ms.map (fun M => (⟨M.rows, M.cols, M.den.f, fun b' m => (M.mm b' m).f⟩ : FacAct R))) b X
+        (Ms.map (fun M => (⟨M.rows, M.cols, M.den.f, fun b' m => M.mm b' m⟩ : FacAct R))) b X
       forceV ((Ms.map (·.rows)).prod) b r.f
   | kronsum Ms, b, X =>
       let r := kronSumMatmat
-        (Ms.map (fun M => (⟨M.rows, M.cols, M.den.f, fun b' m => (M.mm b' m).f⟩ : FacAct R))) b X
+        (Ms.map (fun M => (⟨M.rows, M.cols, M.den.f, fun b' m => M.mm b' m⟩ : FacAct R))) b X
       forceV ((Ms.map (·.rows)).prod) b r.f
   | bdiag Ms mults, b, X =>
       let r := bdiagMatmat
-        ((Ms.map (fun M => (⟨M.rows, M.cols, M.den.f, fun b' m => (M.mm b' m).f⟩ : FacAct R))).zip mults) b X
+        ((Ms.map (fun M => (⟨M.rows, M.cols, M.den.f, fun b' m => M.mm b' m⟩ : FacAct R))).zip mults) b X
       forceV (dotSum (Ms.map (·.rows)) mults) b r.f
   | diag _ _ d, _, X => MatV.of (fun i j => d i * X i j)
   | tridiag _ n al be ga, _, X => MatV.of (tridiagMatmat n al be ga X)
   | transpose A, b, X => MatV.of (transposeM (A.rmm b (transposeM X)).f)
   | adjoint A, b, X => MatV.of (transposeM (conjM (A.rmm b (transposeM (conjM X))).f))
   | sliced A s0 s1, b, X =>
-      let r := slicedMatmat (fun Y => (A.mm b Y).f) (idxR A s0) (idxC A s1) X
+      let r := slicedMatmat (fun Y => A.mm b Y) (idxR A s0) (idxC A s1) X
       forceV (idxR A s0).length b r.f
   | perm _ p, _, X => MatV.of (permMatmat p X)
   | concat ax Ms, b, X =>
-      if ax then hcatMatmat (Ms.map (fun M => (M.cols, fun Y => (M.mm b Y).f))) X
+      if ax then hcatMatmat (Ms.map (fun M => (M.cols, fun Y => M.mm b Y))) X
       else MatV.of (vstack (Ms.map (fun M => (M.rows, (M.mm b X).f))))
   | house _ n v beta, b, X => forceV n b (houseMatmat n v beta X)
   | generic A, b, X => A.mm b X
@@ -82,13 +82,13 @@ def rmm : Op R → Nat → MatF R → MatV R
       forceV b c (transposeM (mmul r (transposeM (sparseDen ents)) (transposeM X)))
   | prod Ms, b, X => Ms.foldl (fun acc M => M.rmm b acc.f) (MatV.of X)
   | sum Ms, b, X =>
-      let r := sumMatmat (Ms.map (fun M => fun Y => (M.rmm b Y).f)) X
+      let r := sumMatmat (Ms.map (fun M => fun Y => M.rmm b Y)) X
       forceV b ((Ms.map (·.cols)).head?.getD 0) r.f
   | diag _ _ d, _, X => MatV.of (fun i j => d j * X i j)
   | transpose A, b, X => MatV.of (transposeM (A.mm b (transposeM X)).f)
   | adjoint A, b, X => MatV.of (transposeM (conjM (A.mm b (transposeM (conjM X))).f))
   | sliced A s0 s1, b, X =>
-      let r := slicedRmatmat (fun Y => (A.rmm b Y).f) (idxR A s0) (idxC A s1) X
+      let r := slicedRmatmat (fun Y => A.rmm b Y) (idxR A s0) (idxC A s1) X
       forceV b (idxC A s1).length r.f
   | annot a A, b, X =>
       if A.hasExplicitRmm then A.rmm b X
@@ -111,16 +111,16 @@ def td : Op R → MatV R
   | dense _ _ _ a => MatV.of (a)
   | tri _ _ _ _ a => MatV.of (a)
   | kron Ms =>
-      match Ms.map (fun M => (⟨M.rows, M.cols, M.td.f, fun _ m => m⟩ : FacAct R)) with
+      match Ms.map (fun M => (⟨M.rows, M.cols, M.td.f, fun _ m => MatV.of m⟩ : FacAct R)) with
       | [] => MatV.of (eyeM)
       | F :: Fs => forceV ((F :: Fs).map (·.r)).prod ((F :: Fs).map (·.c)).prod (kronDense F.r F.c F.a Fs)
   | kronsum Ms =>
-      match Ms.map (fun M => (⟨M.rows, M.cols, M.td.f, fun _ m => m⟩ : FacAct R)) with
+      match Ms.map (fun M => (⟨M.rows, M.cols, M.td.f, fun _ m => MatV.of m⟩ : FacAct R)) with
       | [] => MatV.of (eyeM)
       | F :: Fs => forceV ((F :: Fs).map (·.r)).prod ((F :: Fs).map (·.c)).prod (kronSumDense F.r F.a Fs)
   | bdiag Ms mults =>
       forceV (dotSum (Ms.map (·.rows)) mults) (dotSum (Ms.map (·.cols)) mults)
-        (bdiagDen ((Ms.map (fun M => (⟨M.rows, M.cols, M.td.f, fun _ m => m⟩ : FacAct R))).zip mults))
+        (bdiagDen ((Ms.map (fun M => (⟨M.rows, M.cols, M.td.f, fun _ m => MatV.of m⟩ : FacAct R))).zip mults))
   | diag _ _ d => MatV.of (diagM d)
   | annot a A =>
       if A.hasExplicitTd then A.td
